@@ -115,7 +115,13 @@ class ProgGen:
         if r < 0.46:
             return {"id": sid, "k": "q_compat", "u": rng.choice(self.units), "g": rng.choice(allg + self.systems + [None])}
         if r < 0.50 and self.systems:
-            return {"id": sid, "k": "q_sysattr", "s": rng.choice(self.systems), "name": rng.choice(self.units + ["nosuch"])}
+            name = rng.choice(self.units + ["nosuch"])
+            u = self.table.units.get(name)
+            if u is not None and rng.random() < 0.5:
+                # another spelling of the unit: symbol, alias, plural, prefixed
+                name = rng.choice([name + "s", "K" + name, "kilo" + name] + ([u["symbol"]] if u.get("symbol") else [])
+                                  + list(u.get("aliases", ())))
+            return {"id": sid, "k": "q_sysattr", "s": rng.choice(self.systems), "name": name}
         if r < 0.60 and self.groups:
             bad = rng.random() < 0.2
             names = self.names(self.units, rng.choice([1, 1, 2, 3]))
@@ -140,6 +146,8 @@ class ProgGen:
         if r < 0.86:
             self.nnew += 1
             name = f"dg{self.nnew}"
+            if getattr(self, "future_groups", None):
+                name = self.future_groups.pop(0)
             unit = f"xg{self.nnew}"
             s = {"id": sid, "k": "def_group", "name": name, "using": self.names(self.groups, rng.choice([0, 1])),
                  "unit": {"name": unit, "factor": rng.choice(DEC_FACTORS), "ref": {rng.choice(self.units): 1}}}
@@ -159,8 +167,14 @@ class ProgGen:
             self.nnew += 1
             name = f"ds{self.nnew}"
             self.systems.append(name)
-            return {"id": sid, "k": "def_system", "name": name, "using": self.names(self.groups, rng.choice([0, 1, 2])),
-                    "rules": []}
+            using = self.names(self.groups, rng.choice([0, 1, 2]))
+            if rng.random() < 0.4:
+                # a group that does not exist yet: the system picks its units up once it is created
+                self.nnew += 1
+                future = f"dg{self.nnew}"
+                using.append(future)
+                self.future_groups = getattr(self, "future_groups", []) + [future]
+            return {"id": sid, "k": "def_system", "name": name, "using": using, "rules": []}
         return {"id": sid, "k": "q_members"}
 
 
@@ -666,16 +680,23 @@ class _Run:
             got = norm_units(getattr(getattr(ureg.sys, s["s"]), s["name"]))
         except Exception as e:
             got = type(e).__name__
-        variant = s["s"] + "_" + s["name"]
-        sp = self.table.spellings()
-        if variant in sp:
-            want = [[sp[variant], 1]]
-        elif s["name"] in sp:
-            want = [[sp[s["name"]], 1]]
-        else:
-            want = "UndefinedUnitError"
+        # the system's variant of the name if the registry reads "<system>_<name>" as a unit (any spelling the
+        # parser accepts: plural, prefix, alias), else the plain name
+        from ..names_model import NamesTable
+
+        nt = getattr(self, "_nt", None)
+        if nt is None or self._nt_n != len(self.table.order):
+            nt = self._nt = NamesTable.from_spec({"prefixes": self.spec["prefixes"], "units": [self.table.units[n] for n in self.table.order]})
+            self._nt_n = len(self.table.order)
+        want = "UndefinedUnitError"
+        for cand in (s["s"] + "_" + s["name"], s["name"]):
+            rs = nt.readings(cand, True)
+            if rs:
+                want = sorted({json.dumps([[nt.canonical(r), 1]]) for r in rs})
+                break
         self.col.checks += 1
-        if got != want:
+        ok = got == want if isinstance(want, str) else json.dumps(got) in want
+        if not ok:
             raise Violation("C14.sysattr", s["id"], {"system": s["s"], "name": s["name"], "expected": want, "got": got})
         return "ok"
 
@@ -858,7 +879,7 @@ class _Run:
         return "ok"
 
     def do_def_system(self, s):
-        using = [g for g in s["using"] if g in self.model.groups]
+        using = list(dict.fromkeys(s["using"]))  # a group named here may be created later
         head = f"@system {s['name']}" + (" using " + ", ".join(using) if using else "")
         text = "\n".join([head, "@end"])
         try:
